@@ -62,7 +62,7 @@ func cfBuild(c *cfCase, w *world.World) *config.PikeConfig {
 		// values with `$`: nothing may expand them (a rewrite uses $1; a header may hold any text)
 		var hosts []string
 		if l.Name == "l2" {
-			hosts = []string{"h"} // host + prefix: more specific than l1 for /l2/... on host h
+			hosts = []string{"pike.test"} // host + prefix: more specific than l1 for /l2/... on that host
 		}
 		pc.Locations = append(pc.Locations, config.LocationConfig{Name: cfNames[l.Name], Upstream: cfNames[l.Up], Prefixes: []string{prefix}, Hosts: hosts,
 			Rewrites:   []string{"/rw/*:/$1"},
@@ -252,7 +252,7 @@ func ConfigClosure(w *world.World, raws []json.RawMessage) ([]interface{}, error
 							// a location the server lists now is used: its prefix routes there
 							for _, ln := range s.Locations {
 								if ln == cfNames["l2"] {
-									r := w.DoCase("", names[si], "GET", "h", fmt.Sprintf("/l2/cf/%d", i), nil, nil)
+									r := w.DoCase("", names[si], "GET", "pike.test", fmt.Sprintf("/l2/cf/%d", i), nil, nil)
 									if r.Status == 200 && r.Header.Get("X-Seen-Loc") == "l2" && r.Header.Get("X-Seen-Env") == "costs $5 ${five} $HOME" {
 										probes = append(probes, "ok")
 									} else {
